@@ -121,6 +121,18 @@ CHECKS = {
         note=TB + " Partial: absence of uninitialised reads / pointer-keyed iteration in 12k lines of C is not a theorem; the sweep is search. The generated C has no Lean model.",
         technique="Lean 4 lemmas on pool/serialiser determinism + configuration sweep (search, not proof)",
         design="6/C19"),
+    "C20": dict(
+        text=("Lean 4 theorems: the DynArray model (length, capacity, backing store with stale slots, growth by doubling) refines the abstract "
+              "sequence - every operation (push with growth, pop, get, set, remove_at, clear, reserve, clone) preserves len <= cap = |data| and "
+              "commutes with abs = data.take len, with exactly the C assertions as preconditions (push_refines ... clone_refines); the GC "
+              "bookkeeping model keeps all-objects list, pointer hash set and num_objects in agreement under alloc/retain/release, every live "
+              "object has count >= 1, an object leaves all three exactly when its count reaches zero and releasing an unmanaged pointer is a "
+              "no-op (gc_*_inv). Tie: operation histories are replayed on the real runtime built with ASan+UBSan, on the model and on an "
+              "abstract list. 'Every accepted program is sanitizer-clean' is NOT a theorem: generated programs are built with a sanitizing "
+              "NANO_CC and run, which is search."),
+        note=TB + " Partial: memory safety of arbitrary generated programs and of the transpiler's scope-cleanup discipline is searched, not proved; strings, structs-in-arrays and cycle collection of gc.c are outside the model.",
+        technique="Lean 4 proof (refinement to List, bookkeeping invariants) + differential correspondence under sanitizers + sanitizer search on generated programs",
+        design="6/C20"),
 }
 
 NOT_APPLICABLE = {
